@@ -38,10 +38,21 @@ type vLedger struct {
 	committed int
 	last      RequestResult
 	live      bool // not released yet
+	noRead    bool // the client never reads the result channel (it only counts as delivered)
+	counted   bool
 }
 
 func (l *vLedger) drain() {
 	if !l.live {
+		return
+	}
+	if l.noRead {
+		// a second delivery would find the channel full and panic ("is full")
+		if len(l.rs.CompletedC) > 0 && !l.counted {
+			l.counted = true
+			l.terminal++
+			l.last = RequestResult{code: 255}
+		}
 		return
 	}
 	for len(l.rs.CompletedC) > 0 {
@@ -69,6 +80,7 @@ func VHarness_C12_ProposalLedger() {
 	vAssume(tick < 1<<40)
 	p.tick(tick)
 	var reqs []*vLedger
+	var committedKeys []uint64
 	closed := false
 	nops := 4 + vTier()
 	for i := 0; i < nops; i++ {
@@ -94,7 +106,7 @@ func VHarness_C12_ProposalLedger() {
 					vReach("reused")
 				}
 			}
-			reqs = append(reqs, &vLedger{rs: rs, key: key, cid: cs.ClientID, sid: cs.SeriesID, deadline: tick + to, live: true})
+			reqs = append(reqs, &vLedger{rs: rs, key: key, cid: cs.ClientID, sid: cs.SeriesID, deadline: tick + to, live: true, noRead: vBool("clientNeverReads")})
 		case 1: // applied
 			res := vU64("res")
 			rej := vBool("rej")
@@ -105,7 +117,9 @@ func VHarness_C12_ProposalLedger() {
 				l.drain()
 				if l.terminal > before {
 					vAssert(l.key == ck && l.cid == cc && l.sid == csid, "result-goes-to-the-matching-request-only")
-					if l.last.code == requestCompleted {
+					if l.last.code == 255 {
+						// unread
+					} else if l.last.code == requestCompleted {
 						vReach("completed")
 						vAssert(l.last.result.Value == res && !rej, "completed-carries-the-applied-value")
 					} else {
@@ -121,12 +135,16 @@ func VHarness_C12_ProposalLedger() {
 				l.drain()
 				if l.terminal > before {
 					vReach("dropped")
-					vAssert(l.key == ck && l.cid == cc && l.sid == csid && l.last.code == requestDropped, "dropped-goes-to-the-matching-request-only")
+					vAssert(l.key == ck && l.cid == cc && l.sid == csid && (l.last.code == requestDropped || l.noRead), "dropped-goes-to-the-matching-request-only")
 				}
 			}
-		case 3: // committed
+		case 3: // committed (the commit worker reports every committed entry once)
 			vAssume(notify)
 			ck, cc, csid := vU64("ckey"), vU64("ccid"), vU64("csid")
+			for _, k := range committedKeys {
+				vAssume(k != ck)
+			}
+			committedKeys = append(committedKeys, ck)
 			p.committed(cc, csid, ck)
 			for _, l := range reqs {
 				before := l.committed
@@ -147,7 +165,7 @@ func VHarness_C12_ProposalLedger() {
 				l.drain()
 				if l.terminal > before {
 					vReach("timeout")
-					vAssert(l.last.code == requestTimeout && l.deadline < t, "timeout-only-after-deadline")
+					vAssert((l.last.code == requestTimeout || l.noRead) && l.deadline < t, "timeout-only-after-deadline")
 				}
 			}
 		case 5: // shard stops
@@ -159,18 +177,15 @@ func VHarness_C12_ProposalLedger() {
 				l.drain()
 				if l.terminal > before {
 					vReach("terminated")
-					vAssert(l.last.code == requestTerminated, "close-terminates")
+					vAssert(l.last.code == requestTerminated || l.noRead, "close-terminates")
 				}
 			}
-		case 6: // client releases a notified request WITHOUT reading its result first
+		case 6: // client releases a notified request (possibly WITHOUT having read its result)
 			vAssume(len(reqs) > 0)
 			l := reqs[vChoose("which", len(reqs))]
 			vAssume(l.live)
 			if l.rs.readyToRelease.ready() {
-				// account for the unread result before the object goes back to the pool
-				if len(l.rs.CompletedC) > 0 {
-					l.terminal++
-				}
+				l.drain()
 				l.live = false
 				l.rs.Release()
 			}
@@ -324,7 +339,9 @@ func VHarness_C12_ReadIndexLedger() {
 }
 
 // C12: membership-change and snapshot requests (one pending at a time).
-//vcheck: reach=cc-completed,cc-timeout,ss-completed,ss-terminated,done workers=8 forbid="is full"
+// (request keys come from the process-wide random source, which a native run
+// cannot be told to reproduce: counterexamples are replayed symbolically)
+//vcheck: reach=cc-completed,cc-timeout,ss-completed,ss-terminated,done workers=8 forbid="is full" replay=symbolic
 func VHarness_C12_SingleSlotTables() {
 	tick := vU64("tick0")
 	vAssume(tick < 1<<40)
@@ -407,6 +424,7 @@ func VHarness_C12_SingleSlotTables() {
 	_, err = p.request(pb.ConfigChange{Type: pb.AddNode, ReplicaID: 5, Address: "a5"}, to)
 	vAssert(err == ErrSystemBusy, "second-request-refused-while-pending")
 	closed := false
+	committedOnce := false
 	for i := 0; i < 3; i++ {
 		switch vChoose("op", 5) {
 		case 0:
@@ -433,7 +451,8 @@ func VHarness_C12_SingleSlotTables() {
 				vAssert(k == l.key && l.last.code == requestDropped, "cc-dropped-own-key")
 			}
 		case 2:
-			vAssume(notify)
+			vAssume(notify && !committedOnce) // an entry is reported committed once
+			committedOnce = true
 			k := vU64("ckey")
 			p.committed(k)
 			before := l.committed
